@@ -82,7 +82,22 @@ def run(rep: Report, tier: str) -> None:
 		ra.check(a in attr2key, f'serialised:{a}', init.where, f'self.{a} is set in __init__ but not written by to_json: identity/__eq__ hash to_json() and would ignore it (a change of {a} would not trigger regeneration)')
 	ident = mh.method('identity')
 	eq = mh.method('__eq__')
-	ra.check(ident is not None and 'self.to_json()' in unparse(ident.node) and eq is not None and 'self.identity == other.identity' in unparse(eq.node), 'identity-covers-json', (ident or mh).where, 'identity/__eq__ no longer compare hashes of to_json()')
+	# __eq__ decides regeneration: it must cover every field, either through identity (hash of to_json(), which serialises every field) or field by field
+	covered: set[str] = set()
+	if eq is not None:
+		for n in ast.walk(eq.node):
+			if isinstance(n, ast.Compare) and len(n.ops) == 1 and isinstance(n.ops[0], (ast.Eq, ast.NotEq)):
+				l, rgt = n.left, n.comparators[0]
+				if isinstance(l, ast.Attribute) and isinstance(rgt, ast.Attribute) and isinstance(l.value, ast.Name) and isinstance(rgt.value, ast.Name) and l.attr == rgt.attr and {l.value.id, rgt.value.id} == {'self', 'other'}:
+					covered.add(l.attr)
+				if isinstance(l, ast.Call) and isinstance(rgt, ast.Call) and unparse(l.func).endswith('.to_json') and unparse(rgt.func).endswith('.to_json'):
+					covered.add('identity')
+	if 'identity' in covered:
+		ok_ident = ident is not None and 'self.to_json()' in unparse(ident.node)
+		ra.check(ok_ident, 'eq-covers-all-fields', (ident or mh).where, 'MetaHeader.identity is no longer derived from to_json(), so __eq__ (identity comparison) does not cover the serialised fields')
+	else:
+		missing = sorted(attrs_set - covered)
+		ra.check(eq is not None and not missing, 'eq-covers-all-fields', (eq or mh).where, f'MetaHeader.__eq__ compares {sorted(covered)} only and ignores {missing}: a header that differs only in {missing} is treated as up to date, so the non-forced run skips a module the forced run would regenerate')
 
 	# nested records
 	rn = rep.rule('C06/nested-record-keys', 'producers of the nested records return dict literals whose keys equal the TypedDicts ModuleMeta / TranspilerMeta', floor=3)
